@@ -29,10 +29,10 @@ type c04Scenario struct {
 }
 
 var (
-	c04Hosts    = []string{"a.com", "x.a.com", "*.a.com", "*.x.a.com", "com", "localhost", ""}
+	c04Hosts    = []string{"a.com", "x.a.com", "*.a.com", "*.x.a.com", "com", "localhost", "", "[::1]", "[2001:db8::1]", "10.1.2.3"}
 	c04Prefixes = []string{"/", "/api", "/apiary", "/api/v1", "/a", "/a/b"}
 	c04ReqHosts = []string{"a.com", "a.com:80", "a.com:8443", "x.a.com", "y.a.com", "z.x.a.com", "z.x.a.com:80", "q.z.x.a.com", "com", "com:80", "localhost", "localhost:3000",
-		"b.com", "other", ".a.com", "a.com.", "[::1]", "[::1]:80", "10.1.2.3", "10.1.2.3:80", "xa.com", "a.comx"}
+		"b.com", "other", ".a.com", "a.com.", "[::1]", "[::1]:80", "[::1]:8443", "[2001:db8::1]", "[2001:db8::1]:80", "[2001:db8::2]", "[::2]:80", "10.1.2.3", "10.1.2.3:80", "xa.com", "a.comx"}
 	c04ReqPaths = []string{"/", "/api", "/api/", "/apix", "/api/x", "/apiary", "/apiary/", "/apiary/x", "/api/v1", "/api/v1/", "/api/v1x", "/api/v1/x", "/api/v2",
 		"/a", "/a/", "/ab", "/a/b", "/a/bc", "/a/b/c", "/a//b", "//", "//api", "/api//v1", "/x", "/x/api", "/API"}
 )
@@ -126,9 +126,12 @@ func c04Exhaustive() []c04Scenario {
 // ---- reference, written from the statement ----
 
 func refHost(h string) string {
+	// "the request's exact host (any port ignored)": an IPv6 literal keeps its brackets (that is
+	// the host as it is written in a Host header and in a service's host list), a port is whatever
+	// follows the closing bracket or the only colon
 	if strings.HasPrefix(h, "[") {
 		if i := strings.Index(h, "]"); i > 0 && strings.HasPrefix(h[i+1:], ":") {
-			return h[1:i]
+			return h[:i+1]
 		}
 		return h
 	}
